@@ -33,6 +33,8 @@ var sharedRules = map[string][]sharedRule{
 			"a hop priced against a pool record read before an earlier hop changed it trades twice at one price: a route that revisits a pool gains more than the formula allows"},
 		{"C01", "C01-bank-vs-book-cancel", "C03-settlement-vs-book", []string{"UpdatePoolForSwap"},
 			"the coins leaving the pool address are exactly the quoted output booked against the reserves, and a bonus leaves the rebalance treasury, not the pool"},
+		{"C01", "C01-bank-vs-book-error-gated", "C03-settlement-error-gated", []string{"UpdatePoolForSwap"},
+			"a settlement leg whose bank transfer failed while the swap goes on to succeed hands the trader the output without the input (or books a payment that never arrived): a better-than-reference rate"},
 	},
 	"C05": {
 		{"C11", "C11-amm-hook-coverage", "C05-accounted-refresh", nil,
@@ -43,12 +45,20 @@ var sharedRules = map[string][]sharedRule{
 			"oracle pools value shares (TVL) from the accounted balance amm + (liabilities − custody); a refresh that drops or clamps the signed non-amm part inflates TVL and single-asset exits overpay"},
 		{"C02", "C02-supply-vs-totalshares-cancel", "C05-minted-is-computed", []string{"JoinPool", "ExitPool"},
 			"the share amount minted (burned) is the amount computed from the deposit (withdrawal) and booked in TotalShares, not another value of the same type"},
+		{"C02", "C02-supply-vs-totalshares-error-gated", "C05-minted-error-gated", []string{"JoinPool", "ExitPool", "ApplyJoin", "ApplyExit"},
+			"a join whose deposit transfer or an exit whose share burn failed must not go on to mint shares or pay out: otherwise shares exist without the value that backs them and the other providers are diluted"},
+		{"C03", "C03-range-enforced", "C05-range-enforced", nil,
+			"the share-value bound of a single-asset join (C05-value) assumes the same fee and weight ranges: a pool created with a negative swap fee credits more than the deposit, i.e. mints more shares than the value added"},
 		{"C01", "C01-pool-fresh", "C05-pool-fresh", []string{"JoinPool", "ExitPool", "ApplyJoin", "ApplyExit"},
 			"a join or exit valued against a pool record that an earlier step already changed mis-states the share value"},
 	},
 	"C07": {
 		{"C06", "C06-ledger-cancel", "C07-value-ledger", nil,
 			"TotalValue is what a share redeems against: an update that moves it without the matching cash or debt change (a write-down skipped when the vault empties, a write-up without a deposit) changes every other lender's redemption value"},
+		{"C06", "C06-fresh-writeback", "C07-fresh-writeback", nil,
+			"a debt or vault record written back from a copy taken before a callee accrued interest on the stored one loses that accrual on the debt while TotalValue keeps it: the next accrual books the same interest again and the redemption value exceeds cash plus loans (the last lender cannot redeem)"},
+		{"C06", "C06-ledger-error-gated", "C07-value-error-gated", nil,
+			"a deposit or repayment whose transfer failed but whose value update went through raises the redemption value without cash behind it"},
 		{"C06", "C06-ledger-assign", "C07-value-assign", nil,
 			"a plain overwrite of TotalValue (e.g. from the stale copy carried in a parameter-change message) wipes deposits, withdrawals and accrued interest from the value shares redeem against"},
 		{"C06", "C06-interest-record", "C07-interest-record", nil,
@@ -57,6 +67,16 @@ var sharedRules = map[string][]sharedRule{
 	"C09": {
 		{"C11", "C11-amm-hook-coverage", "C09-hook-after-store", nil,
 			"the perpetual hook re-reads the amm pool from the store for its minimum-custody check: if the amm pool is stored only after the After* hook runs, the check compares custody with the balances from before the exit or swap and never refuses"},
+	},
+	"C10": {
+		{"C09", "C09-mtp-fresh", "C10-mtp-fresh", nil,
+			"a third-party close judged on a position copy taken before an earlier step of the same message settled interest or closed it acts on a health / custody that is no longer the position's: a healthy position is force-closed, or one position is paid out twice"},
+		{"C08", "C08-position-fresh", "C10-position-fresh", nil,
+			"the same for leveraged-LP positions: liquidation and stop-loss are decided on the stored position, not on a memoised copy"},
+	},
+	"C20": {
+		{"C17", "C17-forward", "C20-owner-forward", []string{"x/tradeshield/"},
+			"a batch handler that acts through the single-order handler must hand on the caller's own address: forwarding the stored owner instead makes the callee's owner check compare the owner with itself, and anyone can cancel (and so release the escrow of) another account's order"},
 	},
 	"C11": {
 		{"C09", "C09-pool-persisted", "C11-perp-pool-persisted", nil,
@@ -71,8 +91,12 @@ var sharedRules = map[string][]sharedRule{
 			"share tokens are minted in exactly the amount credited to the depositor in the commitment ledger; minting the deposit amount while crediting the share amount creates unbacked share tokens whenever the rate is not 1"},
 		{"C02", "C02-supply-vs-totalshares-cancel", "C15-share-mint-backed", nil,
 			"share tokens are bank-minted and burned only in the amount booked against the deposit or withdrawal"},
+		{"C02", "C02-supply-vs-committed-error-gated", "C15-share-mint-error-gated", nil,
+			"share tokens minted while their crediting to the depositor failed (or credited while the mint failed) exist outside the ledger that accounts for them"},
 		{"C14", "C14-claim", "C15-vesting-claim", nil,
 			"native tokens are minted only for VestedSoFar − ClaimedAmount and the claimed amount advances with every payout, so one tranche is not minted twice"},
+		{"C14", "C14-vest", "C15-vesting-open", nil,
+			"a schedule's total is created only against Eden given up in the same step and stored on the same record: raising a total without the deduction being stored mints native tokens later that no reward token paid for"},
 		{"C14", "C14-cancel", "C15-vesting-cancel", nil,
 			"a cancel returns at most the not-yet-released part, so released plus returned never exceeds what was put into vesting (native supply grows only by vesting releases)"},
 	},
